@@ -56,7 +56,7 @@ def run(tier):
     stateful_controls(R)
     must_if_failure(udb, R)
     R.assumptions = ['rule boundary = opaque oracle (true/false/exception); hooks are opaque events that may throw',
-                     'exceptions thrown by a closing hook itself (success/failure/start/unwind) are outside the statement']
+                     'when a hook itself throws (must_if raises from failure by design) no unwind may follow for that attempt: the control has its closing event (or, for start, nothing has begun)']
     return R.finish(
         'Exhaustive path enumeration of every instantiation of the central dispatch tao::pegtl::match<> (action shapes x apply mode x rewind mode x control with/without unwind x enable), '
         'exceptional exits included, with RAII unwinding interpreted from the source; assertions H1-H7 on the complete (event sequence, exit, result, cursor) table; '
